@@ -356,7 +356,7 @@ pub struct RunState<'a, M: MachineIO<MachineStack>> {
     /// Execution Context (actually used for more than Commands)
     ctx: CommandContext,
     // Cursors for `QueryStart` results
-    query_iter_stack: Vec<M::QueryIterator>,
+    query_iter_stack: Vec<(Fact, M::QueryIterator)>,
     #[cfg(feature = "bench")]
     stopwatch: Stopwatch,
 }
@@ -943,20 +943,28 @@ where
             Instruction::QueryStart => {
                 let fact: Fact = self.ipop()?;
                 self.validate_fact_literal(&fact)?;
-                let iter = self.io.fact_query(fact.name, fact.keys)?;
-                self.query_iter_stack.push(iter);
+                let iter = self.io.fact_query(fact.name.clone(), fact.keys.clone())?;
+                // Keep the query so that `QueryNext` can apply its bound
+                // value fields, like `Query` and `FactCount` do.
+                self.query_iter_stack.push((fact, iter));
             }
             Instruction::QueryNext(ident) => {
                 // Fetch next fact from iterator
-                let iter = self.query_iter_stack.last_mut().ok_or_else(|| {
+                let (query, iter) = self.query_iter_stack.last_mut().ok_or_else(|| {
                     MachineError::from_position(
                         MachineErrorType::BadState("QueryNext: no results"),
                         self.pc,
                         self.machine.codemap.as_ref(),
                     )
                 })?;
+                // Skip facts whose values do not match the query's bound
+                // value fields.
+                let next = iter.find_map(|r| match r {
+                    Ok(f) if !fact_match(query, &f.0, &f.1) => None,
+                    r => Some(r),
+                });
                 // Update `as` variable value and push an end-of-results bool.
-                match iter.next() {
+                match next {
                     Some(result) => {
                         let (k, v) = result?;
                         let mut fields: Vec<KVPair> = vec![];
